@@ -3,6 +3,7 @@ package c13
 
 import (
 	"context"
+	"errors"
 	"fmt"
 	"sort"
 	"strings"
@@ -157,6 +158,32 @@ func TestInstanceRingHistoryRapid(t *testing.T) {
 			}
 			asked := map[string]int{} // shard query key -> update counter when last asked
 			updates := 0
+			// sub-rings a caller still holds while the parent moves on: they stay usable, and they answer
+			// with their own members only
+			type heldShard struct {
+				what    string
+				sub     ring.ReadRing
+				members map[string]bool
+			}
+			var held []heldShard
+			checkHeld := func(step int) {
+				for _, h := range held {
+					for _, key := range []uint32{0, 7, 19, 31, ^uint32(0) - 1} {
+						rs, err := h.sub.Get(key, ring.Reporting, nil, nil, nil)
+						if err != nil && errors.Is(err, ring.ErrInconsistentTokensInfo) {
+							failure = fmt.Sprintf("after step %d: a sub-ring obtained earlier (%s) reports inconsistent token information for key %d: %v", step, h.what, key, err)
+							return
+						}
+						for _, in := range rs.Instances {
+							if !h.members[in.Id] {
+								failure = fmt.Sprintf("after step %d: a sub-ring obtained earlier (%s, members %v) answers key %d with %q, which is not one of its members", step, h.what, h.members, key, in.Id)
+								return
+							}
+						}
+					}
+					vx.Class("held_subring_lookups", 1)
+				}
+			}
 			var hist []string
 			steps := rapid.IntRange(1, vx.Pick(20, 30)).Draw(rt, "steps")
 			for s := 0; s < steps; s++ {
@@ -212,6 +239,29 @@ func TestInstanceRingHistoryRapid(t *testing.T) {
 					long.Push(mk())
 					updates++
 					hist = append(hist, fmt.Sprintf("t=%v %s(%s)", time.Since(base), k, pick))
+					if checkHeld(s); failure != "" {
+						failure += fmt.Sprintf("\n history: %v", hist)
+						return
+					}
+				}
+				if len(held) < 4 && rapid.IntRange(0, 2).Draw(rt, "holdShard") == 0 {
+					id, size := rapid.SampledFrom([]string{"t1", "t2"}).Draw(rt, "heldTenant"), rapid.IntRange(1, 4).Draw(rt, "heldSize")
+					sub := long.ShuffleShard(id, size)
+					if sub != ring.ReadRing(long.Ring) {
+						h := heldShard{what: fmt.Sprintf("ShuffleShard(%s,%d) after %d updates", id, size, updates), sub: sub, members: map[string]bool{}}
+						if rs, err := sub.GetAllHealthy(ring.Reporting); err == nil {
+							for _, in := range rs.Instances {
+								h.members[in.Id] = true
+							}
+						}
+						// members that are not healthy for the operation are members too
+						for _, in := range cur {
+							if sub.HasInstance(in.Id) {
+								h.members[in.Id] = true
+							}
+						}
+						held = append(held, h)
+					}
 				}
 				fresh := fakekv.NewRing(ring.Config{HeartbeatTimeout: cfg.HeartbeatTimeout, ReplicationFactor: rf, ZoneAwarenessEnabled: za, SubringCacheDisabled: true}, mk())
 				nq := rapid.IntRange(1, 6).Draw(rt, "queries")
